@@ -81,7 +81,8 @@ def check(ctx):
                                     detail=f"{clause}: case={case} expected={exp} got={got}"))
 
     T = hdr.SOMEIPSDEntryType
-    egsets = (frozenset(), frozenset({5}), frozenset({5, 6}))
+    # (eventgroup ids have no wildcard: 0xFFFF and 0 are ordinary ids)
+    egsets = (frozenset(), frozenset({5}), frozenset({5, 6}), frozenset({0xFFFF}), frozenset({0, 0xFF}))
     for a in descs:
         sa = cfg.Service(*a)
         conc_a = a[1] != W[0] and a[2] != W[1] and a[3] != W[2]
@@ -165,7 +166,7 @@ def check(ctx):
             if b[3] == mino[0]:
                 for egs in egsets:
                     sae = cfg.Service(*a, eventgroups=egs)
-                    for req in (5, 7):
+                    for req in (5, 7, 0xFFFF, 0):
                         for counter, ttl in ((0, 3), (3, 3), (0, 0), (15, 0xFFFFFF)):  # also StopSubscribe and the infinite TTL
                             e = entry(T.Subscribe, b, ttl=ttl, last=(counter << 16) | req)
                             g = sae.matches_subscribe(e)
